@@ -92,9 +92,28 @@ func c13Histories(length int) [][]string {
 }
 
 func c13Crash(length, shard, nshards int, everyByteMod int) vh.Unit {
-	name := fmt.Sprintf("crash-images/len%d/%d", length, shard)
+	return c13CrashHists(fmt.Sprintf("crash-images/len%d/%d", length, shard), func() [][]string { return c13Histories(length) }, shard, nshards, everyByteMod)
+}
+
+// histories in which time passes: peer sets that age out (down to the empty set), nodes re-reporting
+// after their peers expired, nonces accepted long before the kill
+func c13AgedHistories() [][]string {
+	var out [][]string
+	for _, last := range []string{"upd a - 9", "upd a c 9", "upd a b 9", "upd b - 9", "set a hg", "nonce a fresh", "addnb a 5"} {
+		for _, tick := range []string{"tick 1m", "tick 3m", "tick 20m"} {
+			out = append(out,
+				[]string{"set a hg", "set b cl", "upd a b 7", tick, last, "reopen"},
+				[]string{"set a hg", "set b cl", "set c cl", "upd a b,c 7", tick, "upd a c 8", tick, last},
+				[]string{"set a hg", "upd a b 7", "nonce a n", tick, last, "nonce a n+1"},
+			)
+		}
+	}
+	return out
+}
+
+func c13CrashHists(name string, histories func() [][]string, shard, nshards int, everyByteMod int) vh.Unit {
 	return vh.Unit{Name: name, Run: func(u *vh.U) {
-		hists := c13Histories(length)
+		hists := histories()
 		for histIdx, ops := range hists {
 			if histIdx%nshards != shard {
 				continue
@@ -164,7 +183,7 @@ func c13Crash(length, shard, nshards int, everyByteMod int) vh.Unit {
 				k := len(ops)
 				lo, hi := vh.VlogSize(run.Marks[k-1]), vh.VlogSize(run.Marks[k])
 				sameFiles := len(run.Marks[k-1]) == len(run.Marks[k])
-				if ops[k-1] != "reopen" && sameFiles && hi > lo {
+				if ops[k-1] != "reopen" && vh.TickOf(ops[k-1]) == 0 && sameFiles && hi > lo {
 					step := int64(16)
 					if everyByteMod > 0 && histIdx%everyByteMod == 0 {
 						step = 1 // a representative subset of histories gets every single byte length
@@ -650,6 +669,17 @@ func init() {
 				for s := 0; s < 12; s++ {
 					us = append(us, c13Crash(3, s, 24, 0))
 				}
+			}
+			an := 4
+			if tier == "thorough" {
+				an = 8
+			}
+			for sh := 0; sh < an; sh++ {
+				every := 0
+				if tier == "thorough" {
+					every = 1
+				}
+				us = append(us, c13CrashHists(fmt.Sprintf("crash-images/aged/%d", sh), c13AgedHistories, sh, an, every))
 			}
 			bound := 1
 			if tier == "thorough" {
